@@ -279,8 +279,15 @@ def dispatcher_histories(repo):
                          ("connect, the attempt is closed before the connection is up", ["connect", "handle_close"]),
                          ("connect, connected, socket error", ["connect", "handle_connect", "handle_error"]),
                          ("connect, connected, disconnect requested", ["connect", "handle_connect", "disconnect"]),
-                         ("connect, disconnect requested while still connecting", ["connect", "disconnect"])):
-        it, cbs, log = harness()
+                         ("connect, disconnect requested while still connecting", ["connect", "disconnect"]),
+                         ("connect fails at once (the socket library raises from connect() itself: unresolvable host)", ["connect!"])):
+        def lib_connect(itp, label, a, k, env, d, e):
+            # asyncore.dispatcher_with_send.connect(self, host) raising socket.gaierror (an OSError, alias socket.error)
+            if label.strip(".()").split(".")[-1] == "connect" and e is not None and "dispatcher" in unparse(e.func):
+                raise _Raise(("ext", "socket.error", []), "gaierror: name resolution failed")
+            return None
+        it, cbs, log = harness({"extcall": lib_connect} if steps == ["connect!"] else None)
+        steps = [m.rstrip("!") for m in steps]
         try:
             o = it.construct(c, [cbs], {}, {"@module": c.module, "@owner": None}, 0, None)
             o[1].fields.setdefault("out_buffer", ("c", b""))          # asyncore's own attribute
